@@ -48,6 +48,16 @@ func ConstraintErrorAddPathSegment(err error, pathSegment string) error {
 	return err
 }
 
+// constraintErrorKeepPath copies the path of the constraint error found in cause, if any, to wrapper, so that
+// wrapping an error into a new message does not lose the location of the offending element.
+func constraintErrorKeepPath(wrapper *ConstraintError, cause error) *ConstraintError {
+	var c *ConstraintError
+	if errors.As(cause, &c) {
+		wrapper.Path = append(wrapper.Path, c.Path...)
+	}
+	return wrapper
+}
+
 // NoSuchStepError indicates that the given step is not supported by the plugin.
 type NoSuchStepError struct {
 	Step string
